@@ -273,6 +273,19 @@ def search(ctx, boost=1, focus=()):
         cases.append({"cy": 0.0, "cx": 0.0, "sy": sy, "sx": sx, "ri": 0.0, "n": 2, "R": 2 * (rmax + 0.5 - w_),
                       "norm_dtype": ["float16", "float32", "float64"][(k // 3) % 3]})
         ctx.count("touching_bin")
+    # centres a fraction of a pixel past the middle of the frame (between the middle pixel and the middle of the extent) with bins
+    # that reach beyond the farthest corner pixel: every pixel of the frame is covered, the corner pixels included
+    for k in range((40 if ctx.tier == "thorough" else 12) * boost):
+        sy, sx = int(rng.integers(6, 40)), int(rng.integers(6, 40))
+        cy = (sy - 1) / 2 + (float(rng.uniform(0.02, 0.48)) if k % 3 != 1 else 0.0) + float(rng.integers(-1, 2)) * (k % 4 == 3)
+        cx = (sx - 1) / 2 + (float(rng.uniform(0.02, 0.48)) if k % 3 != 2 else 0.0)
+        far = float(np.sqrt(max(cy, sy - 1 - cy) ** 2 + max(cx, sx - 1 - cx) ** 2))
+        R = float(np.ceil(far)) + float(rng.integers(1, 4))
+        ri_ = 0.0 if k % 2 else float(rng.choice([0.5, 1.0, 2.5]))
+        nmax_ = max(1, int(np.floor(R - ri_)))          # bins at least a pixel wide
+        n_ = int(rng.integers(max(1, nmax_ // 3), nmax_ + 1))
+        cases.append({"cy": cy, "cx": cx, "sy": sy, "sx": sx, "R": R, "ri": ri_, "n": n_})
+        ctx.count("centre_past_the_middle")
     for p in cases:
         if "norm_dtype" not in p and rng.random() < 0.3:
             p["norm_dtype"] = ["float16", "float32"][int(rng.integers(2))]
